@@ -949,11 +949,42 @@ def signature(case, kind):
     return f"{kind}:{case['api']}(\"{case['desc']}\"; {shapes}; {params})"
 
 
+UNEXPANDED_SITE_SIG = ("i-must-fail:call-site:einx/_src/namedtensor/stage2/solve.py:map creates an 'UnexpandedEllipsis(...)' axis "
+                       "(an ellipsis whose count is undetermined inside a flattened axis is replaced by one free axis)")
+
+
+def through_unexpanded_site(case):
+    """Does the real call create an `UnexpandedEllipsis(...)` axis (the `else` branch of `map` in stage2/solve.py)?  Observed by
+    wrapping the `Axis` constructor that stage2/solve.py uses, for the duration of one call."""
+    import sys as _sys
+    import einx  # noqa: F401
+    S = _sys.modules["einx._src.namedtensor.stage2.solve"]
+    orig = S.Axis
+    seen = []
+
+    class Spy(orig):
+        def __init__(self, name, *a, **k):
+            if isinstance(name, str) and name.startswith("UnexpandedEllipsis("):
+                seen.append(name)
+            super().__init__(name, *a, **k)
+    S.Axis = Spy
+    try:
+        call_real(case)
+    except Exception:
+        pass
+    finally:
+        S.Axis = orig
+    return bool(seen)
+
+
 def report(ctx, checker, case, res, do_shrink=True):
     kind = res[0]
     small = shrink(checker, case, kind) if do_shrink else case
     r2 = checker.check(small, record=False) or res
     sig = signature(small, kind)
+    if kind == "i-must-fail" and through_unexpanded_site(small):
+        # one defect, identified by its call site (known_findings.json): every accepted-but-unsolvable input that goes through it
+        sig = UNEXPANDED_SITE_SIG
     ctx.violation(sig, {"kind": kind, "api": small["api"], "description": small["desc"], "shapes": small["shapes"],
                         "params": {k: np.asarray(v).tolist() for k, v in small["params"].items()},
                         "detail": r2[1], "evidence": r2[2],
